@@ -593,7 +593,8 @@ func contentList(computer *ComputedStyle, values pr.ContentProperties) (pr.Conte
 		case "attr()":
 			attr, ok := value.Content.(pr.AttrData)
 			if !ok || attr.TypeOrUnit != "string" {
-				panic(fmt.Sprintf("invalid attr() property : %v", value.Content))
+				// for instance attr(title url), accepted by the validation
+				return nil, fmt.Errorf("unsupported attr() type in content : %v", value.Content)
 			}
 			var err error
 			computedValue, err = computeAttrFunction(computer, attr)
